@@ -6,6 +6,7 @@ from mc.framework import Result
 
 ID = "C03"
 LEVEL = "model_checking"
+RNG_LAW_PROPERTY = True   # see framework._work: a library-side random.seed() is a violation
 BATCH = 8
 RULE = ("for every joint degree sequence in the box and every motif configuration, the exact probability (product "
         "of exact choice-point probabilities over the full RNG choice tree of the real generator) of every realised "
